@@ -327,11 +327,14 @@ func runC17s(rc *RunCtx) {
 	keys := uniqueCrypto(genKeys(G, 1+G.Draw(3), ""))
 	natT := []time.Duration{2 * time.Second, 20 * time.Second}[G.Draw(2)]
 	replayable := G.Draw(2) == 0 // the replay history is on: a repeated handshake is refused
-	tsrv := startTCPServer(rc, w, tcpServerOpts{Keys: keys, Timeout: time.Second, Metrics: m, Replay: map[bool]int{false: 0, true: 100}[replayable]})
+	tsrv := startTCPServer(rc, w, tcpServerOpts{Keys: keys, Timeout: time.Second, Metrics: m, Replay: map[bool]int{false: 0, true: 100}[replayable], Debug: rc.F.Draw(3) == 1})
 	var wires [][]byte           // handshakes of earlier valid connections (for replays)
 	mayAuth := map[int]bool{}    // client ports of connections that present a fresh valid handshake
 	wirePorts := map[int][]int{} // handshake -> client ports that presented it
 	usrv := startUDPServer(rc, w, udpServerOpts{Keys: keys, Timeout: natT, Metrics: m})
+	if rc.F.Draw(4) == 1 {
+		w.UDPSockErr = []int{300, 700}[rc.F.Draw(2)] // outbound sockets cannot always be created (EMFILE)
+	}
 	tgtIP := net.IPv4(93, 184, 216, 34).To4()
 	startTarget(w, tgtIP, 7000, func(tc *targetConn) {
 		readAll(tc.C)
@@ -425,6 +428,31 @@ func runC17s(rc *RunCtx) {
 	doScrape()
 	if failed {
 		return
+	}
+	// Everything is idle: no connection, no association (every timeout has passed).
+	// Whoever has neither accrues no tunnel time: a later scrape shows no growth.
+	if len(w.OpenUDP(true)) <= 1 { // (the listening socket)
+		simrt.Sleep(10 * time.Second)
+		before := scrapes[len(scrapes)-1]
+		doScrape()
+		if failed {
+			return
+		}
+		after := scrapes[len(scrapes)-1]
+		for fam, m0 := range before.vals {
+			for k, v1 := range after.vals[fam] {
+				if v1 > m0[k]+1e-6 {
+					rc.Failf("tunnel-time-grows-while-idle", "%s{%s} grew from %v to %v between two scrapes 10 s apart although no connection and no association was open any more", fam, k, m0[k], v1)
+				}
+			}
+		}
+		for fam, m1 := range after.vals {
+			if _, ok := before.vals[fam]; !ok && len(m1) > 0 {
+				rc.Failf("tunnel-time-grows-while-idle", "%s appeared between two scrapes of an idle server", fam)
+			}
+		}
+		scrapes = scrapes[:len(scrapes)-1] // the interval model below is not asked about it
+		simrt.Probe("idle_scrape_pair")
 	}
 	// one handshake, at most one tunnel (replay history on)
 	authed := map[int]bool{}
